@@ -1329,6 +1329,16 @@ func (a *la) checkProtocol() {
 				continue
 			}
 			ast.Inspect(fi.fd.Body, func(n ast.Node) bool {
+				// a closure handed to time.AfterFunc / `go` runs later, on its own goroutine and NOT inside the batch's
+				// critical section: it is analysed as a function of its own (entered with no lock) and may take the mutex
+				if c, ok := n.(*ast.CallExpr); ok {
+					if se, isS := c.Fun.(*ast.SelectorExpr); isS && se.Sel.Name == "AfterFunc" {
+						return false
+					}
+				}
+				if _, ok := n.(*ast.GoStmt); ok {
+					return false
+				}
 				if c, ok := n.(*ast.CallExpr); ok {
 					if _, _, ok := lockCall(c); ok && fi != end {
 						problems = append(problems, "batch."+fi.fd.Name.Name+" locks/unlocks a mutex")
